@@ -484,6 +484,14 @@ class Session:
                 if self.exp_meta:
                     self.application_traffic.append((record.raw, record, isserver))
 
+    def handle_tls_record_safely(self, record: TlsRecord, isserver):
+        """A malformed record (truncated or corrupted handshake message, empty alert, ...) must not abort the export
+        of all other connections"""
+        try:
+            self.handle_tls_record(record, isserver)
+        except Exception as e:
+            logging.warning(f"Could not handle malformed TLS record: {e}")
+
     def binary_to_ip(self, ip_addr):
         if self.ipv6:
             return IPv6Address(ip_addr)
@@ -500,7 +508,7 @@ class Session:
                 self.extract_server_buf()
 
                 for record in self.server_tls_records:
-                    self.handle_tls_record(record, True)
+                    self.handle_tls_record_safely(record, True)
 
                 self.server_tls_records.clear()
             else:
@@ -508,7 +516,7 @@ class Session:
                 self.extract_client_buf()
 
                 for record in self.client_tls_records:
-                    self.handle_tls_record(record, False)
+                    self.handle_tls_record_safely(record, False)
 
                 self.client_tls_records.clear()
 
